@@ -1,6 +1,6 @@
 SPECIFICATION Spec
-CONSTANTS MaxOps = 6
-          MaxLen = 4
+CONSTANTS MaxOps = 4
+          MaxLen = 3
 INVARIANT Emit
 CONSTRAINT Bounded
 VIEW View
